@@ -55,6 +55,8 @@ type Engine struct {
 	curExec        *Exec
 	lemmasUsed     map[string]bool
 	unfoldCache    map[string]*Term
+	hintTerms      map[*Term]bool
+	ufFresh        int
 	smtMu          sync.Mutex
 }
 
@@ -62,7 +64,7 @@ func NewEngine(repo string) (*Engine, error) {
 	e := &Engine{repo: repo, pkgs: map[string]*ssa.Package{}, tpkgs: map[string]*packages.Package{}, specs: map[string]*PkgSpec{},
 		funcIDs: map[*ssa.Function]int{}, funcByID: map[int]*ssa.Function{}, typeTags: map[string]int{},
 		trustedUsed: map[string]bool{}, assumptions: map[string]bool{}, loopInfo: map[*ssa.Function]*loopInfo{}, initDone: map[string]*initResult{}, maxPaths: 20000, fuel: 2,
-		ifaceAsserts: map[string]*types.Interface{}, recCache: map[*ssa.Function]bool{}, ufSpecs: map[string]*ufSpec{}, lemmasUsed: map[string]bool{}, unfoldCache: map[string]*Term{}}
+		ifaceAsserts: map[string]*types.Interface{}, recCache: map[*ssa.Function]bool{}, ufSpecs: map[string]*ufSpec{}, lemmasUsed: map[string]bool{}, unfoldCache: map[string]*Term{}, hintTerms: map[*Term]bool{}}
 	e.ar = &Arith{Mode: ModeBV}
 	cfg := &packages.Config{Mode: packages.LoadAllSyntax, Dir: repo, BuildFlags: []string{"-tags=verif"},
 		Env: append(os.Environ(), "GOFLAGS=-mod=mod", "GOPROXY=off", "GOSUMDB=off", "GOTOOLCHAIN=local", "GOOS=linux", "GOARCH=amd64")}
